@@ -6,7 +6,7 @@ Binding: each shape is a real file; its decoded structure instantiates the model
 reachable state graph is replayed on the real reader (walks + per-edge probes), the recorded calls are validated
 against the abstract Mtbl specification by TLC (Trace_Mtbl).
 """
-import os, json
+import os, json, subprocess
 from .. import core, build, gen, shapes, tablecheck as TC, refcodec as R
 
 
@@ -153,6 +153,7 @@ def run(ctx):
     regression_f1(ctx, b)
     blocks_apart(ctx, b)
     random_histories(ctx, b)
+    block_cursor(ctx)
     cov = {
         "states": ctx.cov.get("states", 0), "transitions": ctx.cov.get("transitions", 0),
         "traces_validated_against_impl": ctx.cov.get("traces_validated_against_impl", 0),
@@ -165,6 +166,82 @@ def run(ctx):
     return core.finish(ctx, "model_checking", cov,
                        rule="per shape: all edges (state, op) of the reachable graph of MC_Reader instantiated with the decoded real file; "
                             "non-trivial = seek edges that change the model state; plus seeded random histories over all byte values")
+
+
+def block_cursor(ctx):
+    """the block layer driven directly: MC_Block (every block of up to 7 entries x restart interval 1..4 x every history of first / last /
+    seek / next / prev: the implementation-shaped iterator of Reader.tla refines the abstract cursor), then the real builder and iterator
+    (harness/block_drv.c) on generated blocks, every call validated against those operators (Trace_Block)"""
+    wd = ctx.sub("block")
+    r = core.tlc("MC_Block", "MC_Block.cfg", workers=4, timeout=900)
+    if not r.ok:
+        raise core.Infra("MC_Block does not hold:\n" + r.out[-3000:])
+    ctx.add("states", r.distinct)
+    ctx.add("transitions", r.generated)
+    prog = build.compile_prog("asan", "block_drv", ["block_drv.c"])
+    rng = ctx.rng
+    hx = lambda x: x.hex() if x else "-"
+    fams = []
+    def keys_of(kind, n):
+        if kind == "bytes":
+            return sorted(set(bytes([rng.randrange(256)]) for _ in range(n)))
+        if kind == "prefix":
+            base = bytes(rng.randrange(256) for _ in range(rng.choice([1, 3, 40])))
+            ks = set()
+            while len(ks) < n:
+                ks.add(base[:rng.randrange(len(base) + 1)] + bytes(rng.choice([0, 1, 0x7f, 0x80, 0xff]) for _ in range(rng.randrange(3))))
+            return sorted(ks)
+        if kind == "long":      # unshared / shared lengths on both sides of the one-byte varint limit
+            base = bytes(rng.randrange(256) for _ in range(rng.choice([126, 127, 128, 129, 300])))
+            return sorted(set(base + bytes([i, rng.randrange(256)]) * rng.choice([0, 1, 64]) for i in range(n)) | ({b""} if rng.random() < 0.5 else set()))
+        return sorted(set(bytes([0x61 + i]) * (1 + i % 3) for i in range(n)))
+    lines = []
+    nb = 0
+    sizes = list(range(0, 10)) + [17, 33]
+    for n in sizes:
+        for ri in (1, 2, 3, 4, 16):
+            kind = rng.choice(["bytes", "prefix", "long", "plain", "prefix"])
+            ks = keys_of(kind, n) if n else []
+            ents = [(k, bytes(rng.randrange(256) for _ in range(rng.choice([0, 1, 2, 5, 127, 128, 200])))) for k in ks]
+            tg = {b"", b"\xff\xff"}
+            for k in ks:
+                tg |= {k, k + b"\x00", k[:-1], k[:-1] + bytes([min(255, k[-1] + 1)]) if k else b"\x00"}
+            tg = sorted(tg)
+            if len(tg) > 24:
+                tg = rng.sample(tg, 24)
+            lines.append("block %d %d %s" % (ri, rng.randrange(2), " ".join(hx(k) + ":" + hx(v) for k, v in ents)))
+            lines.append("targets " + " ".join(hx(t) for t in tg))
+            if n <= 9:
+                lines.append("sys")
+            for w in range(3 if ctx.quick() else 12):
+                lines.append("walk %d %d" % (rng.randrange(1 << 30), 40))
+            nb += 1
+    script = os.path.join(wd, "block.script")
+    open(script, "w").write("\n".join(lines) + "\n")
+    out = os.path.join(wd, "block.ndjson")
+    try:
+        p = subprocess.run([prog, script, out], stdout=subprocess.PIPE, stderr=subprocess.PIPE, text=True, timeout=600)
+    except subprocess.TimeoutExpired:
+        core.report(ctx, "a call of the block builder / iterator did not return within 600 s (every loop of the driver is bounded)", {"kind": "script", "script": lines})
+        return
+    nlog = sum(1 for _ in open(out)) if os.path.exists(out) else 0
+    if p.returncode != 0:
+        # the driver only makes calls that are within the functions' preconditions: an assertion, a sanitizer report or a signal is theirs
+        core.report(ctx, "block builder / iterator ended the process (rc %d) after %d logged calls: %s" % (p.returncode, nlog, p.stderr[-400:]),
+                    {"kind": "script", "script": lines, "stderr": p.stderr[-4000:]})
+        return
+    ok, depth, r = core.validate_trace(out, "Trace_Block", timeout=1800)
+    ctx.add("block_layer_blocks", nb)
+    ctx.add("block_layer_calls", nlog)
+    ctx.add("trace_events", nlog)
+    if ok:
+        ctx.add("traces_validated_against_impl", 1)
+    else:
+        recs = [json.loads(l) for l in open(out)]
+        ev = recs[depth - 1] if depth and depth <= len(recs) else {}
+        j = max(i for i in range(min(depth or 1, len(recs))) if recs[i]["e"] == "BBlock") if recs else 0
+        core.report(ctx, "block iterator / builder call not explained by the model of block.c at trace line %s: %s" % (depth, json.dumps(ev)[:400]),
+                    {"kind": "trace", "module": "Trace_Block", "trace": recs[j:depth], "line": (depth or 1) - j})
 
 
 def random_histories(ctx, b):
@@ -235,7 +312,7 @@ def replay(ctx, path):
     if obj.get("kind") == "trace":
         p = os.path.join(ctx.sub("replay"), "t.ndjson")
         core.write_trace(p, obj["trace"])
-        ok, depth, r = core.validate_trace(p)
+        ok, depth, r = core.validate_trace(p, obj.get("module", "Trace_Mtbl"))
         print("replay: trace %s at line %s" % ("accepted" if ok else "rejected", depth))
         ctx.cleanup()
         return 0 if ok else 1
